@@ -92,11 +92,11 @@ func (d *rawDecoder) Scan(ctx context.Context) (DecodedAmmo, error) {
 		}
 		if err == io.EOF {
 			d.passNum++
-			if d.config.Passes != 0 && d.passNum >= d.config.Passes {
-				return nil, ErrPassLimit
-			}
 			if d.ammoNum == 0 {
 				return nil, ErrNoAmmo
+			}
+			if d.config.Passes != 0 && d.passNum >= d.config.Passes {
+				return nil, ErrPassLimit
 			}
 			_, err := d.file.Seek(0, io.SeekStart)
 			if err != nil {
